@@ -792,8 +792,19 @@ class Interp:
         left = self.ev(n.left)
         res = True
         unknown = False
+        prev_node = n.left
         for op, rn in zip(n.ops, n.comparators):
             right = self.ev(rn)
+            # a threshold built from the internal precision (`abs(x) < 10 ** -config.internal_precision`) is meant for values
+            # in storage units (that is what the precision counts digits of): in base units it is a million times coarser
+            if isinstance(op, (ast.Lt, ast.LtE, ast.Gt, ast.GtE)):
+                for val, node, other in ((left, prev_node, rn), (right, rn, prev_node)):
+                    if isinstance(val, Num) and 'internal_precision' in ast.unparse(other) and \
+                            not any(isinstance(y, ast.Call) and isinstance(y.func, ast.Name) and y.func.id == 'round' for y in ast.walk(other)):
+                        self.sink(n, 'storage-compare', val.unit.has_storage_symbol(),
+                                  f"a value in {val.unit} is compared with a threshold of the internal precision, which counts digits "
+                                  f"of storage units: amounts representable in storage are treated as nothing")
+            prev_node = rn
             r = self.compare(left, op, right, n)
             if r is False:
                 return Bool(False)
